@@ -90,6 +90,11 @@ func Conc(x int) int { return x }
 // Symbolic reports whether the harness runs under the symbolic engine.
 func Symbolic() bool { return false }
 
+// Redirect makes the engine run fn wherever the function called name (go/ssa spelling, e.g.
+// "(*pkg/path.T).Method") is called; natively it does nothing: harnesses that use it take a
+// different route natively (see Symbolic).
+func Redirect(name string, fn interface{}) {}
+
 // Dump prints b (natively, when VERIF_DUMP is set; nothing under the engine): a triage aid.
 func Dump(label string, b []byte) {
 	if os.Getenv("VERIF_DUMP") != "" {
